@@ -212,7 +212,30 @@ def run_case(case):
         else:
             O[r, j] = X[r, j] + rs.randn() * 5
     pts += [B, O]
+    # far tails: every coordinate with an unbounded side is moved 20-30 scale units out, all at once - each conditional density is
+    # positive and each log density finite, but their PRODUCT underflows
+    T = X.copy()
+    ntail = 0
+    for r in range(n):
+        for j in range(dim):
+            nd = by[names[j]]
+            if not set(a[1] for a in nd['args'] if a[0] == 'p') <= set(names):
+                continue
+            col = {nm: T[r, i] for i, nm in enumerate(names)}
+            args = [col[a[1]] if a[0] == 'p' else a[1] for a in nd['args']]
+            loc, scale = args[-2], args[-1]
+            k = 20.0 + 8.0 * ((r + j) % 2)
+            if nd['dist'] in ('norm', 'custom') and scale > 0:
+                T[r, j] = loc + (k if (r + j) % 3 else -k) * scale
+                ntail += 1
+            elif nd['dist'] == 'expon' and scale > 0:
+                T[r, j] = loc + 10 * k * scale
+                ntail += 1
+    if ntail:
+        pts.append(T)
     labels = ['subset=' + kind, 'dim=%d' % dim]
+    if ntail:
+        labels.append('far-tail-points')
     for pi, A in enumerate(pts):
         with np.errstate(all='ignore'):
             with must_not_raise(P, 'pdf/logpdf; ' + ctx):
@@ -220,7 +243,7 @@ def run_case(case):
                 la = np.asarray(prior.logpdf(A if dim > 1 else A[:, 0]))
         r_ = ref_pdf(nodes, names, A)
         lr = ref_pdf(nodes, names, A, log=True)
-        what = ['draws', 'boundary points', 'outside points'][pi]
+        what = ['draws', 'boundary points', 'outside points', 'far-tail points'][pi]
         if a.shape != (n,) or la.shape != (n,):
             raise Violation('C08:pdf-shape', 'pdf of %d points has shape %r (logpdf %r); %s' % (n, a.shape, la.shape, ctx))
         if not np.allclose(a, r_, rtol=1e-10, atol=0, equal_nan=True):
@@ -307,6 +330,22 @@ def run_case(case):
         if not np.allclose(gb2[r], rows[r], rtol=1e-9, atol=1e-12, equal_nan=True):
             raise Violation('C08:gradient-batch-differs-from-rows', 'row %d (%r) of a batched gradient_logpdf is %r, the same point alone gives %r (batch %r); %s'
                             % (r, mixed[r].tolist(), gb2[r].tolist(), rows[r].tolist(), mixed.tolist(), ctx))
+    # the same points handed over as float32 arrays (points that float32 represents exactly): density, log density and gradient
+    # are functions of the point, not of the array's dtype
+    X32 = X[:3].astype(np.float32)
+    X64 = X32.astype(np.float64)
+    with np.errstate(all='ignore'):
+        with must_not_raise(P, 'evaluation at float32 points; ' + ctx):
+            l32 = np.reshape(prior.logpdf(X32 if dim > 1 else X32[:, 0]), -1)
+            l64 = np.reshape(prior.logpdf(X64 if dim > 1 else X64[:, 0]), -1)
+            g32 = [np.reshape(prior.gradient_logpdf(r_ if dim > 1 else r_[0]), -1) for r_ in X32]
+            g64 = [np.reshape(prior.gradient_logpdf(r_ if dim > 1 else r_[0]), -1) for r_ in X64]
+    if not np.allclose(l32, l64, rtol=1e-6, atol=1e-6, equal_nan=True):
+        raise Violation('C08:depends-on-point-dtype', 'logpdf of %r given as float32 is %r, as float64 %r; %s' % (X64.tolist(), l32.tolist(), l64.tolist(), ctx))
+    for r in range(len(X32)):
+        if np.all(np.isfinite(g64[r])) and not np.allclose(g32[r], g64[r], rtol=1e-3, atol=1e-4 * (1 + np.abs(g64[r]).max())):
+            raise Violation('C08:depends-on-point-dtype', 'gradient_logpdf of %r given as float32 is %r, as float64 %r; %s' % (X64[r].tolist(), g32[r].tolist(), g64[r].tolist(), ctx))
+    labels.append('float32-points')
     hier = any(a[0] == 'p' for nd in nodes if nd['name'] in names for a in nd['args'])
     if hier:
         labels.append('hierarchical')
@@ -325,7 +364,7 @@ CHECK = Check(
     rule=('Hypothesis-generated models of 1-4 scalar parameters in random forests/chains with distributions uniform, norm, expon, gamma, beta, '
           'truncnorm, a user-defined scipy-like class and an elfi.Distribution subclass with rvs+pdf only (bounded support, inherited log density); location arguments constant or a parent parameter, scale arguments constant or '
           'a positive-support parent; parameter_names = default, a permutation, or an ancestor-closed strict subset; evaluation points = '
-          'draws, points on a support boundary, points outside; scalar / (dim,) / (n,dim) / (n,) inputs; gradient at interior draws and '
+          'draws, points on a support boundary, points outside, points 20-30 scale units out in every unbounded coordinate at once (the product of densities underflows), the same points as float32 arrays; scalar / (dim,) / (n,dim) / (n,) inputs; gradient at interior draws and '
           'outside the support. Non-trivial = hierarchical model or a non-default subset/order.'),
     parts=[Part('model-prior', run_case, strategy=strat, examples={'quick': 400, 'thorough': 24000})],
     assumptions=['scipy.stats densities are the reference', 'subsets that omit an ancestor of a listed parameter are not generated (no defined meaning)',
